@@ -1651,7 +1651,9 @@ impl_rawlru_from_kv_collections! (
 // raw pointers. The raw pointers are safely encapsulated by RawLRU though so we can
 // implement Send and Sync for it below.
 unsafe impl<K: Send, V: Send, E: Send, S: Send> Send for RawLRU<K, V, E, S> {}
-unsafe impl<K: Sync, V: Sync, E: Send, S: Sync> Sync for RawLRU<K, V, E, S> {}
+// a shared `&RawLRU` reaches the callback through `&E` (e.g. `clone()` calls `E::clone`), so
+// sharing the cache between threads requires `E: Sync`
+unsafe impl<K: Sync, V: Sync, E: Sync, S: Sync> Sync for RawLRU<K, V, E, S> {}
 
 impl<K: Hash + Eq, V, E: OnEvictCallback, S: BuildHasher> fmt::Debug for RawLRU<K, V, E, S> {
     fn fmt(&self, f: &mut fmt::Formatter) -> fmt::Result {
